@@ -130,7 +130,8 @@ def run(ctx):
             bad["pvalues"] = [str(x) for x in v]
             ctx.violation("oracle", bad, site="adjust_p")
     # unknown method names raise ValueError
-    for name in ("nonsense", "holm", "", "Bonferroni", "bonferonni", "BH"):
+    for name in ("nonsense", "holm", "", "Bonferroni", "bonferonni", "BH", "{method}", "{}", "holm-{bonferroni}", "{:>10}", "{0}", "%s", "%(name)s", "{",
+                 "benjamini-hochberg ", " holm-bonferroni", "holm_bonferroni", "bonferroni\n", "\x00"):
         for vec in ([0.3], [0.1, 0.2], [0.5, 0.5, 0.01], [0.0, 1.0, 0.2, 0.2]):
             r = guarded(npc.adjust_p, np.array(vec), name)
             ctx.case(("badmethod", name, len(vec)), True); ctx.count("unknown-method")
